@@ -74,6 +74,11 @@ pub fn check(v: &View, vd: &mut Verdict) {
                         }
                     }
                 }
+                let settle = v.phase(Phase::Settle);
+                if av.task_end.is_some_and(|(s, _)| s > teardown) && z < settle {
+                    // everything it had accepted fits into the settle window: something kept it alive until the world was torn down
+                    vd.fail("C05/kept_alive_until_teardown", format!("actor {a}: the last strong handle was dropped at {z} (run phase), but the actor only terminated at {:?}, after the harness had unregistered services and brokers at {teardown}", av.task_end));
+                }
                 if av.task_end.is_none() {
                     vd.fail("C05/kept_alive", format!("actor {a}: the last strong handle was dropped at {z} but the actor never terminated (only weak handles, timers, subscriptions were left)"));
                 } else if !av.graceful {
